@@ -1,10 +1,182 @@
 import Driver.Common
-open Lean Drv
+import RxModel.TimedWin
+import RxModel.TimedRate
+import RxModel.TimedShift
+import RxModel.TimedMap
+open Lean Drv Timed
 
 namespace DrvTimed
 
-def handle (op : String) (_j : Json) : Except String Json := do
+def notifToJson : Notif Val → Json
+  | .next v => Json.arr #[.str "N", valToJson v]
+  | .error e => Json.arr #[.str "E", .str e]
+  | .completed => Json.arr #[.str "C"]
+
+def notifOfJson (j : Json) : Except String (Notif Val) := do
+  match j with
+  | .arr #[.str "N", v] => pure (.next (← valOfJson v))
+  | .arr #[.str "E", .str e] => pure (.error e)
+  | .arr #[.str "C"] => pure .completed
+  | _ => throw s!"bad notification {j.compress}"
+
+def tlOfJson (js : List Json) : Except String (TL Val) :=
+  js.mapM fun j =>
+    match j with
+    | .arr #[t, n] => do pure ((← t.getNat?), (← notifOfJson n))
+    | _ => throw s!"bad timed notification {j.compress}"
+
+def tlToJson (l : TL Val) : Json :=
+  Json.arr (l.map fun (t, n) => Json.arr #[.num (JsonNumber.fromNat t), notifToJson n]).toArray
+
+/-- `{"src":"hot"|"cold","msgs":[..]}` as seen by a subscription made at `sub` -/
+def seen (kind : String) (sub : Nat) (msgs : TL Val) : TL Val :=
+  if kind == "cold" then cold sub msgs else hot sub msgs
+
+def getSeen (j : Json) (sub : Nat) : Except String (TL Val) := do
+  pure (seen (← getStr j "src") sub (← tlOfJson (← getArr j "msgs")))
+
+def both (run spec : TL Val) : Json := Json.mkObj [("run", tlToJson run), ("spec", tlToJson spec)]
+
+/-- relative/absolute time argument: `{"abs": bool, "at": n}` -/
+def getDue (j : Json) : Except String Due := do
+  let a ← getNat j "at"
+  pure (if (← getBool j "abs") then .abs a else .rel a)
+
+/-- `"inners"`: the timelines (relative times) of the observables the mapper returns, by call ordinal (cyclic) -/
+def getInners (j : Json) : Except String (List (TL Val)) := do
+  (← getArr j "inners").mapM fun x =>
+    match x with
+    | .arr a => tlOfJson a.toList
+    | _ => throw "bad inner timeline"
+
+def innerOf (inners : List (TL Val)) (k : Nat) : TL Val :=
+  if inners.isEmpty then [] else inners.getD (k % inners.length) []
+
+def getRaises (j : Json) : Except String (Nat → Val → Option String) := do
+  match (← getOptInt j "raise_at") with
+  | some r => pure (fun k _ => if (k : Int) == r then some "mapErr" else none)
+  | none => pure (fun _ _ => none)
+
+def srcEvents (src : TL Val) : List (Nat × MEv Val) := src.map (fun m => (m.1, MEv.src m.2))
+
+/-- inner observables for the source elements: element `i` (arriving at `t_i`) gets index `i + off` -/
+def elemInners (inners : List (TL Val)) (off : Nat) (src : TL Val) : List (Nat × MEv Val) :=
+  (((elemTimes src).zipIdx).map (fun (p : Nat × Nat) => innerEvents (α := Val) (p.2 + off) p.1 (innerOf inners (p.2 + off)))).flatten
+
+def handle (op : String) (j : Json) : Except String Json := do
+  let sub ← getNat j "sub"
+  let isCold := (← getStr j "src") == "cold"
+  let src ← getSeen j sub
   match op with
+  | "take_with_time" =>
+    let d ← getNat j "d"
+    pure (both (twtRun isCold (sub + d) (sub + d) src) (twtSpec isCold (sub + d) (sub + d) src))
+  | "take_until_with_time" =>
+    let due := (← getDue j).at sub
+    pure (both (twtRun isCold due (max due sub) src) (twtSpec isCold due (max due sub) src))
+  | "skip_with_time" =>
+    let d ← getNat j "d"
+    pure (both (swtRun isCold (sub + d) false src) (swtSpec isCold (sub + d) src))
+  | "skip_until_with_time" =>
+    let due := (← getDue j).at sub
+    pure (both (swtRun false due false src) (swtSpec false due src))
+  | "take_last_with_time" =>
+    let d ← getNat j "d"
+    pure (both (tlwtRun keepFixed d [] src) (tlwtSpec d src))
+  | "take_last_with_time_asis" =>
+    let d ← getNat j "d"
+    pure (both (tlwtRun keepAsIs d [] src) (tlwtSpec d src))
+  | "skip_last_with_time" =>
+    let d ← getNat j "d"
+    pure (both (slwtRun d [] src) (slwtSpec d [] 0 src))
+  | "timeout" =>
+    let mode ← getDue j
+    let other : Nat → TL Val ←
+      match j.getObjVal? "other" with
+      | .ok (.obj o) => do
+        let oj := Json.obj o
+        let kind ← getStr oj "src"
+        let om ← tlOfJson (← getArr oj "msgs")
+        pure (fun S => seen kind S om)
+      | _ => pure (fun S => [(S, Notif.error "Exception")])
+    let s0 := toInit mode sub
+    pure (both (toRun mode isCold other s0 src)
+               (toSpec mode isCold other (mode.at sub) (max (mode.at sub) sub) true src))
+  -- C16
+  | "throttle_first" =>
+    let w ← getNat j "d"
+    pure (both (throttleFirst w sub src) (if w = 0 then [(sub, .error "ValueError")] else tfSpec w src))
+  | "debounce" =>
+    let d ← getNat j "d"
+    pure (both (debRun d {} src) (debSpec d src))
+  | "sample" =>
+    let (ticks, tf) : List (Nat × SampEv) × Bool ←
+      match j.getObjVal? "sampler" with
+      | .ok (.obj o) => do
+        let oj := Json.obj o
+        let sk ← getStr oj "src"
+        pure (samplerEvents (seen sk sub (← tlOfJson (← getArr oj "msgs"))), isCold && sk == "hot")
+      | _ => do pure (intervalTicks sub (← getNat j "period") (← getNat j "stop"), false)
+    pure (both (sampRun tf {} src ticks) (sampSpec tf none src ticks))
+  -- C15
+  | "timestamp" =>
+    let f := fun (l : TL (Val × Nat)) => l.map (fun m => (m.1, m.2.map (fun p => Val.tup [p.1, .int p.2])))
+    pure (both (f (tsRun src)) (f (tsSpec src)))
+  | "time_interval" =>
+    let f := fun (l : TL (Val × Nat)) => l.map (fun m => (m.1, m.2.map (fun p => Val.tup [p.1, .int p.2])))
+    pure (both (f (tiRun sub src)) (f (tiSpec sub src)))
+  | "delay" =>
+    let d := match (← getDue j) with | .rel d => d | .abs D => D - sub
+    pure (both (delayRun d src) (delaySpec d src))
+  | "delay_subscription" =>
+    let S := max ((← getDue j).at sub) sub
+    let src' := seen (← getStr j "src") S (← tlOfJson (← getArr j "msgs"))
+    pure (both (dsRun [] src') (dsSpec src'))
+  -- *_with_mapper
+  | "throttle_with_mapper" =>
+    let inners ← getInners j
+    let raises ← getRaises j
+    let tr := mergeStable (srcEvents src ++ elemInners inners 0 src)
+    pure (both (twmRun raises tr) (twmSpec raises tr))
+  | "delay_with_mapper" =>
+    let inners ← getInners j
+    let raises ← getRaises j
+    let kind ← getStr j "src"
+    let msgs ← tlOfJson (← getArr j "msgs")
+    match j.getObjVal? "subdelay" with
+    | .ok (.arr a) =>
+      let sd := conform (← tlOfJson a.toList)
+      let subEv : List (Nat × MEv Val) := sd.map (fun m => (sub + m.1, MEv.sub (sigOf m.2)))
+      let src' : TL Val :=
+        match sd with
+        | (r, .next _) :: _ => seen kind (sub + r) msgs
+        | (r, .completed) :: _ => seen kind (sub + r) msgs
+        | _ => []
+      -- a cold source is scheduled when `start()` subscribes it, i.e. after the subscription delay's own messages
+      let tr := if isCold then mergeStable (subEv ++ srcEvents src' ++ elemInners inners 0 src')
+                else mergeStable (srcEvents src' ++ subEv ++ elemInners inners 0 src')
+      pure (both (dwmRun raises true tr) (dwmRun raises true tr))
+    | _ =>
+      let tr := mergeStable (srcEvents src ++ elemInners inners 0 src)
+      pure (both (dwmRun raises false tr) (dwmRun raises false tr))
+  | "timeout_with_mapper" =>
+    let inners ← getInners j
+    let raises ← getRaises j
+    let first : List (Nat × MEv Val) :=
+      match j.getObjVal? "first" with
+      | .ok (.arr a) => (match tlOfJson a.toList with | .ok tl => innerEvents 0 sub tl | .error _ => [])
+      | _ => []
+    let other : Nat → TL Val ←
+      match j.getObjVal? "other" with
+      | .ok (.obj o) => do
+        let oj := Json.obj o
+        let kind ← getStr oj "src"
+        let om ← tlOfJson (← getArr oj "msgs")
+        pure (fun S => seen kind S om)
+      | _ => pure (fun S => [(S, Notif.error "Exception")])
+    let tr := if isCold then mergeStable (first ++ srcEvents src ++ elemInners inners 1 src)
+              else mergeStable (srcEvents src ++ first ++ elemInners inners 1 src)
+    pure (both (towmRun raises other tr) (towmSpec raises other tr))
   | _ => throw s!"unknown op {op}"
 
 end DrvTimed
